@@ -1,18 +1,19 @@
 #!/bin/bash
 # selftest/run_refactors.sh <dir>...: each <dir> holds a behaviour-preserving patch.diff. Applies it to /repo, runs
-# every quick check, reverts; prints one line per (refactor, check) that did not exit 0, and a summary line.
-cd /verif
+# every quick check, reverts (VERIF_DIR / REPO_DIR select a scratch copy made by scratch_copy.sh); prints one line per (refactor, check) that did not exit 0, and a summary line.
+V="${VERIF_DIR:-/verif}"; R="${REPO_DIR:-/repo}"
+cd "$V"
 # evidence files are rewritten by every run: keep the ones from the unchanged tree
 EVBAK=$(mktemp -d); cp -a evidence/. $EVBAK/ 2>/dev/null
-trap 'cp -a $EVBAK/. /verif/evidence/ 2>/dev/null; rm -rf $EVBAK' EXIT
+trap 'cp -a $EVBAK/. $V/evidence/ 2>/dev/null; rm -rf $EVBAK' EXIT
 for d in "$@"; do
-  git -C /repo checkout -q -- .
-  if ! git -C /repo apply "$d/patch.diff" 2>/dev/null; then echo "$d APPLY-FAIL"; continue; fi
+  git -C $R checkout -q -- .
+  if ! git -C $R apply "$d/patch.diff" 2>/dev/null; then echo "$d APPLY-FAIL"; continue; fi
   bad=0
   for i in $(seq -w 1 20); do
     out=$(./check C$i quick 2>&1); rc=$?
     if [ $rc -ne 0 ]; then bad=$((bad+1)); echo "$d C$i rc=$rc $(echo "$out" | grep -A1 -E 'VIOLATION|INCONCLUSIVE' | grep -v VIOLATION | head -1 | cut -c1-400)"; fi
   done
-  git -C /repo checkout -q -- .
+  git -C $R checkout -q -- .
   echo "$d done alarms=$bad"
 done
